@@ -34,7 +34,20 @@ void final_report() {}
 
 struct Cfg { uint8_t lg_k; float p; int rf; uint64_t nmax; int parts; double overlap; uint64_t base; double step; bool tuple; bool reuse; };
 
+// a sketch that says is_ordered() delivers strictly ascending hashes (unions stop reading an ordered input at the first hash
+// at or above their theta, so a wrong flag loses entries)
+static uint64_t hash_of(uint64_t h) { return h; }
+template<typename V> static uint64_t hash_of(const std::pair<uint64_t, V>& e) { return e.first; }
+template<typename S> static void check_ordered(const S& s, const char* fam, const char* what) {
+  if (!s.is_ordered() || s.get_num_retained() < 2) return;
+  uint64_t prev = 0, pos = 0; bool ok = true;
+  for (const auto& e : s) { const uint64_t h = hash_of(e); if (pos > 0 && h <= prev) { ok = false; break; } prev = h; ++pos; }
+  VF_CHECK(ok, std::string(fam) + "|is_ordered|hashes-not-strictly-ascending", std::string(what) + " retained=" + std::to_string(s.get_num_retained()) + " first violation at entry " + std::to_string(pos));
+  count("sk_ordered_checks");
+}
+
 template<typename S> static void observe(const S& s, uint64_t n, const char* fam, const Cfg& c, const char* what) {
+  check_ordered(s, fam, what);
   const Chain ch = read_chain(s);
   auto ctx = [&] { return std::string(what) + " lg_k=" + std::to_string(c.lg_k) + " p=" + str(c.p) + " rf=" + std::to_string(c.rf) + " reused_after_reset=" + std::to_string(c.reuse) + " n=" + std::to_string(n) + " retained=" + std::to_string(s.get_num_retained()) + " theta=" + str(s.get_theta()); };
   check_chain_lazy(ch, fam, ctx);
@@ -59,6 +72,7 @@ static uint64_t g_special_mod = 1;
 static bool is_special(uint64_t key) { return key % g_special_mod == 0; }
 
 template<typename F> static void observe_filtered(const F& fs, uint64_t n_special, uint64_t n, const Cfg& c, const char* what) {
+  check_ordered(fs, "tuple_filter", what);
   const Chain ch = read_chain(fs);
   auto ctx = [&] { return std::string(what) + " lg_k=" + std::to_string(c.lg_k) + " p=" + str(c.p) + " n=" + std::to_string(n) + " true count of the filtered sub-population=" + std::to_string(n_special) +
                           " retained=" + std::to_string(fs.get_num_retained()) + " theta=" + str(fs.get_theta()) + " is_empty=" + std::to_string(fs.is_empty()); };
@@ -224,6 +238,18 @@ static uint64_t covered(std::vector<std::pair<uint64_t, uint64_t>> iv) {   // si
   return tot;
 }
 
+// Tuple unions only: an input offered through the theta->tuple adapter compact_tuple_sketch(theta_sketch, summary, ordered = true),
+// built from an update_theta_sketch (form 3) or from its unordered compact form (form 4) over the same keys.
+template<typename UN, typename IN> static bool offer_via_adapter(UN&, const IN&, uint64_t) { return false; }
+template<typename IN> static bool offer_via_adapter(tuple_union<double>& u, const IN& x, uint64_t base) {
+  auto ts = update_theta_sketch::builder().set_lg_k(x.lg_k).set_p(x.p).set_resize_factor(static_cast<resize_factor>(x.rf)).build();
+  for (uint64_t j = 0; j < x.cnt; ++j) ts.update(bij(base + x.start + j));
+  if (x.form == 3) { const compact_tuple_sketch<double> ad(ts, 1.0); check_ordered(ad, "tuple_from_theta_adapter", "adapter from update_theta_sketch"); u.update(ad); }
+  else { const compact_theta_sketch ct = ts.compact(false); const compact_tuple_sketch<double> ad(ct, 1.0); check_ordered(ad, "tuple_from_theta_adapter", "adapter from unordered compact_theta_sketch"); u.update(ad); }
+  count("sk_union_program_inputs_via_theta_adapter");
+  return true;
+}
+
 template<typename SK, typename UN, typename MK, typename MKU, typename UPD>
 static void union_program(Rng& r, bool T, const char* ufam, MK make, MKU make_union, UPD upd) {
   const uint8_t U = static_cast<uint8_t>(r.range(5, T ? 12 : 11));
@@ -237,9 +263,9 @@ static void union_program(Rng& r, bool T, const char* ufam, MK make, MKU make_un
   if (directed) {
     // an exact input that leaves more than k (but fewer than 15k/8) entries in the union table, then a deeply sampled coarser one
     Input a; a.lg_k = static_cast<uint8_t>(std::min<int>(13, U + static_cast<int>(r.range(1, 2)))); a.p = 1.0f; a.rf = static_cast<int>(r.below(4));
-    a.start = 0; a.cnt = kU + 1 + r.below(kU * 7 / 8 - 1); a.form = static_cast<int>(r.below(3)); a.fill = 1;
+    a.start = 0; a.cnt = kU + 1 + r.below(kU * 7 / 8 - 1); a.form = static_cast<int>(r.below(5)); a.fill = 1;
     Input b; b.lg_k = static_cast<uint8_t>(std::max<int>(5, U - static_cast<int>(r.range(0, 3)))); b.p = ps[r.below(5)]; b.rf = static_cast<int>(r.below(4));
-    b.cnt = std::min<uint64_t>(cap, (16ULL << b.lg_k) + r.below(48ULL << b.lg_k)); b.start = r.below(a.cnt + 1); b.form = static_cast<int>(r.below(3)); b.fill = 3;
+    b.cnt = std::min<uint64_t>(cap, (16ULL << b.lg_k) + r.below(48ULL << b.lg_k)); b.start = r.below(a.cnt + 1); b.form = static_cast<int>(r.below(5)); b.fill = 3;
     in.push_back(a); in.push_back(b);
     if (r.coin()) { Input c2 = a; c2.start = r.below(b.start + b.cnt); c2.cnt = 1 + r.below(kU); c2.fill = 0; in.push_back(c2); }
     count("sk_union_program_directed_overfull_then_low_theta");
@@ -248,7 +274,7 @@ static void union_program(Rng& r, bool T, const char* ufam, MK make, MKU make_un
     uint64_t span = 0;
     for (int i = 0; i < nin; ++i) {
       Input x; x.lg_k = static_cast<uint8_t>(std::max<int>(5, std::min<int>(13, U + static_cast<int>(r.range(-2, 3)))));
-      x.p = ps[r.below(5)]; x.rf = static_cast<int>(r.below(4)); x.form = static_cast<int>(r.below(3)); x.fill = static_cast<int>(r.below(4));
+      x.p = ps[r.below(5)]; x.rf = static_cast<int>(r.below(4)); x.form = static_cast<int>(r.below(5)); x.fill = static_cast<int>(r.below(4));
       const uint64_t k = 1ULL << x.lg_k;
       switch (x.fill) {
         case 0: x.cnt = 1 + r.below(k / 2); break;                          // exact, small
@@ -274,15 +300,19 @@ static void union_program(Rng& r, bool T, const char* ufam, MK make, MKU make_un
   bool all_p1 = true;
   for (size_t i = 0; i < in.size(); ++i) {
     const Input& x = in[i];
-    SK sk = make(x.lg_k, x.p, x.rf);
-    for (uint64_t j = 0; j < x.cnt; ++j) upd(sk, bij(base + x.start + j));
-    if (x.form == 0) u.update(sk); else u.update(sk.compact(x.form == 1));
+    if (!(x.form >= 3 && offer_via_adapter(u, x, base))) {
+      SK sk = make(x.lg_k, x.p, x.rf);
+      for (uint64_t j = 0; j < x.cnt; ++j) upd(sk, bij(base + x.start + j));
+      const int form = x.form % 3;
+      if (form == 0) u.update(sk); else { const auto cs = sk.compact(form == 1); check_ordered(cs, ufam, "compact input"); u.update(cs); }
+    }
     iv.push_back({x.start, x.start + x.cnt});
     all_p1 = all_p1 && x.p == 1.0f && x.cnt <= (1ULL << x.lg_k);   // every input unsampled and within its own nominal size
     count(std::string("sk_union_program_input_fill") + std::to_string(x.fill));
     if (i + 1 < in.size() && r.coin()) continue;       // read the result after this step only sometimes (a read-out must not be needed)
     const uint64_t n = covered(iv);
     const auto res = u.get_result(r.coin());
+    check_ordered(res, ufam, "union result");
     const Chain ch = read_chain(res);
     auto ctx = [&] { return "after input " + std::to_string(i + 1) + " true distinct=" + std::to_string(n) + " retained=" + std::to_string(res.get_num_retained()) + " theta=" + str(res.get_theta()); };
     check_chain_lazy(ch, ufam, ctx);
